@@ -74,5 +74,5 @@ package streams
 // nothing delivered stays buffered.
 //@ func (*Stdin).ReadAll [C01 C19 C32]
 //@   requires stdin != nil && stdin.ctx != nil
-//@   ghost at unlock 3: stdin.$rlen = stdin.$rlen + len(stdin.buffer)
+//@   ghost at unlock 3: stdin.$rlen = stdin.$rlen + len(old@lock3(stdin.buffer))
 //@   ensures result1 == nil
